@@ -80,6 +80,8 @@ def words_trace(spec, ncycles, rnd, pce=0.8, engine="compiled", schedule=None):
     ev, sched = [], []
     st.load(st.reset_state, tuple(0 for _ in ins))
     cyc, limit = 0, ncycles
+    missing = None          # per lane: symbols still lacking one of the two input disparities
+    ext = 0
     while cyc < limit:
         if schedule is not None:
             if cyc >= len(schedule):
@@ -88,7 +90,10 @@ def words_trace(spec, ncycles, rnd, pce=0.8, engine="compiled", schedule=None):
         elif spec["kind"] == "enc":
             iv = [1 if rnd.random() < pce else 0]
             for i in range(n):
-                iv += list(rnd.choice(ALPHABET) if rnd.random() < 0.85 else (rnd.choice(KSYMS), 1))
+                if missing is not None and missing[i] and rnd.random() < 0.6:
+                    iv += list(rnd.choice(missing[i]))
+                else:
+                    iv += list(rnd.choice(ALPHABET) if rnd.random() < 0.85 else (rnd.choice(KSYMS), 1))
             iv = tuple(iv)
         else:
             iv = (1 if rnd.random() < pce else 0, rnd.randrange(1024))
@@ -102,9 +107,15 @@ def words_trace(spec, ncycles, rnd, pce=0.8, engine="compiled", schedule=None):
         else:
             ev.append([iv[0], iv[1], int(o[0]), int(o[1]), int(o[2])])
         cyc += 1
-        if cyc == limit and schedule is None and spec["kind"] == "enc" and limit < 6 * ncycles:
-            if len(enc_coverage(ev, n)) < n * len(ALPHABET) * 2:
-                limit += ncycles
+        if cyc == limit and schedule is None and spec["kind"] == "enc" and ext < 60:
+            # stimulus steering only: which symbols to offer more often (read off the DUT's own
+            # disparity outputs); what the DUT must answer is judged by the specification alone
+            cov = enc_coverage(ev, n)
+            if len(cov) < n * len(ALPHABET) * 2:
+                missing = [sorted({(d, k) for (d, k) in ALPHABET for r in (0, 1) if (i, d, k, r) not in cov})
+                           for i in range(n)]
+                limit += 200
+                ext += 1
     return ev, sched
 
 
@@ -194,25 +205,25 @@ def stream_configs(tier, tables):
                 codes.append(w)
     L = []
     # --- encoder, idle cycles carry the all-zero payload
-    L.append(({"cls": "StreamEncoder", "n": 1, "idle": "zero"}, _scfg("enc", 1, esyms[:4], 0, "zero", 2)))
-    L.append(({"cls": "StreamEncoder", "n": 1, "idle": "zero"}, _scfg("enc", 1, esyms[1:3], 1, "zero", 2)))
-    L.append(({"cls": "StreamEncoder", "n": 2, "idle": "zero"}, _scfg("enc", 2, esyms[:3], 0, "zero", 2)))
+    L.append(({"cls": "StreamEncoder", "n": 1, "idle": "zero"}, _scfg("enc", 1, esyms[:4], 0, "zero", 4)))
+    L.append(({"cls": "StreamEncoder", "n": 1, "idle": "zero"}, _scfg("enc", 1, esyms[1:3], 1, "zero", 4)))
+    L.append(({"cls": "StreamEncoder", "n": 2, "idle": "zero"}, _scfg("enc", 2, esyms[:3], 0, "zero", 4)))
     # --- encoder, idle cycles carry any payload (legal for a stream producer: the payload is a
     #     don't-care while valid = 0; e.g. an upstream Buffer keeps showing the last token)
-    L.append(({"cls": "StreamEncoder", "n": 1, "idle": "any"}, _scfg("enc", 1, esyms[:4], 0, "any", 2)))
+    L.append(({"cls": "StreamEncoder", "n": 1, "idle": "any"}, _scfg("enc", 1, esyms[:4], 0, "any", 4)))
     # --- decoder
     # (decoders with n >= 2 are covered in T-mode only: each lane has its own table memory and the
     #  order in which Migen lowers several memories - hence the stepper's register order - is not
     #  stable between the worker processes that exchange state vectors in G-mode)
     L.append(({"cls": "StreamDecoder", "n": 1, "idle": "any"},
-              _scfg("dec", 1, [(w,) for w in codes[:4] + [0x3ff]], 1, "any", 1)))
+              _scfg("dec", 1, [(w,) for w in codes[:4] + [0x3ff]], 1, "any", 4)))
     if tier == "thorough":
-        L.append(({"cls": "StreamEncoder", "n": 1, "idle": "zero"}, _scfg("enc", 1, esyms, 1, "zero", 2)))
-        L.append(({"cls": "StreamEncoder", "n": 2, "idle": "zero"}, _scfg("enc", 2, esyms[:4], 0, "zero", 2)))
-        L.append(({"cls": "StreamEncoder", "n": 3, "idle": "zero"}, _scfg("enc", 3, esyms[1:3], 0, "zero", 2)))
-        L.append(({"cls": "StreamEncoder", "n": 2, "idle": "any"}, _scfg("enc", 2, esyms[:3], 0, "any", 2)))
+        L.append(({"cls": "StreamEncoder", "n": 1, "idle": "zero"}, _scfg("enc", 1, esyms, 1, "zero", 4)))
+        L.append(({"cls": "StreamEncoder", "n": 2, "idle": "zero"}, _scfg("enc", 2, esyms[:4], 0, "zero", 4)))
+        L.append(({"cls": "StreamEncoder", "n": 3, "idle": "zero"}, _scfg("enc", 3, esyms[1:3], 0, "zero", 4)))
+        L.append(({"cls": "StreamEncoder", "n": 2, "idle": "any"}, _scfg("enc", 2, esyms[:3], 0, "any", 4)))
         L.append(({"cls": "StreamDecoder", "n": 1, "idle": "any"},
-                  _scfg("dec", 1, [(w,) for w in codes + [0x3ff, 0x0f0]], 1, "any", 1)))
+                  _scfg("dec", 1, [(w,) for w in codes + [0x3ff, 0x0f0]], 1, "any", 4)))
     # the same DUT must not appear twice in one batch with the same python spec: tag them
     for i, (s, c) in enumerate(L):
         s["tag"] = i
